@@ -369,12 +369,27 @@ func (e *env) checkBind(s Sig, f, g starlark.Value, c Call, pyDef, pyLam string,
 				n := allNames[c.Dict-dictName]
 				kwargs = append(kwargs, starlark.Tuple{starlark.String(n), starlark.MakeInt(dictVal(n))})
 			}
-			got2, _, etext2 := safeCall(e.th, fn, args, kwargs)
+			got2, retAPI, etext2 := safeCall(e.th, fn, args, kwargs)
 			if st != nil {
 				st.Evals++
 			}
 			if got2 != want {
 				report("bind-api", fnText, "starlark.Call", got2, fmt.Sprintf("specification says %s; err=%q", want, etext2))
+			}
+			// The host owns the arrays it passed to starlark.Call and reuses them for
+			// its next call (as min/max do with their key function): what the callee
+			// bound and returned must not change with them.
+			if want != failed && retAPI != nil {
+				for i := range args {
+					args[i] = starlark.MakeInt(-99)
+				}
+				for i := range kwargs {
+					kwargs[i][0], kwargs[i][1] = starlark.String("zz"), starlark.MakeInt(-98)
+					kwargs[i] = starlark.Tuple{starlark.String("yy"), starlark.MakeInt(-97)}
+				}
+				if after := canonVal(retAPI); after != want {
+					report("bind-api-retained", fnText, "starlark.Call, then the host reuses its argument arrays", after, fmt.Sprintf("specification says %s (what the call returned before the arrays were reused)", want))
+				}
 			}
 		}
 	}
